@@ -147,8 +147,11 @@ def run(ctx):
                     pts = [i for i, l in enumerate(labels) if l == k]
                     for v, pidx in zip(per[k], pts):
                         ref = independent_logpdf(data[pidx], mus[k], thetas[k])
-                        qq = float((data[pidx] - mus[k]) @ thetas[k] @ (data[pidx] - mus[k]))
-                        if not np.isfinite(v) or abs(float(v) - ref) > 1e-8 * max(1.0, abs(ref)) + 1e-6 * abs(qq):
+                        dd = data[pidx] - mus[k]
+                        # forward error bound of the double-precision quadratic form: ~ n eps |Theta| |d|^2 (large when the
+                        # MRF is ill-conditioned; it is the accuracy any binary64 evaluation of the formula can have)
+                        qbound = 8.0 * n * 2.0 ** -52 * float(ev.max() * (1.0 + 0.3 * k)) * float(dd @ dd)
+                        if not np.isfinite(v) or abs(float(v) - ref) > 1e-8 * max(1.0, abs(ref)) + qbound:
                             ctx.violation("monitor", "reported value %r of point %d is not its log-density %r under its own cluster %d (MRF eigenvalues over %g decades)"
                                           % (float(v), pidx, ref, k, spread), {"case": case})
                             break
